@@ -167,6 +167,11 @@ func VerifC03SUDPVisitor() {
 		}
 	}
 	sv.Close()
+	if zzverif.Bool("closedTwice") {
+		// a reload that drops the visitor and the shutdown of the client may both close it
+		sv.Close()
+		zzverif.Reach("C16.svisitor.closed-twice")
+	}
 	zzverif.Quiesce()
 
 	// user -> backend direction
